@@ -44,6 +44,8 @@ CLAIMED = {
          'Decides the writer side of the capture format: header struct layouts, file header fields, recorded length == bytes written == IP total length, timestamp split without narrowing and identical in both loggers, every TCP payload/EOF transmission and UDP wire send logged once before it leaves with true addresses, sequence stamped before the counter advances from zero. File-equals-sends is not decided.', '4/C19'),
  'C20': ('static: sibling rule over all channel-attaching functions, writer table and move-coverage of the segment limit, idiom check of the segmentation cut, exact-form check of the don\'t-fragment guard with reachability of capture/wire from its true edge',
          'Decides that connector and accepted side both set the segment limit from the path-MTU query, that the limit survives a move, that segments are cut at min(remaining, limit), that payload is never altered and retransmission re-sends whole packets, and that the UDP DF test is exactly option && total > mtu with a silent reported-as-sent discard. Behaviour for all MTU values at run time is not decided.', '4/C20'),
+ 'C17': ('static: forward abstract interpretation per function (linear forms over base symbols, per-symbol intervals refined by dominating guards, collected linear constraints) with sinks at subscripts, buffer/string/memcpy lengths, unsigned subtractions and pointer advances; plus a structural rule on the relay loops',
+         'Decides that no client-controlled integer reaches an index, length, unsigned subtraction or pointer advance without being inside the extent for every admitted byte value (all socks_connection member functions, about 70 sinks), with completion byte counts bounded by the initiating read; and that each relay direction forwards the whole chunk with the composed write before re-reading into the same buffer. Reply codes, counter values and transparency at run time are not decided.', '4/C17'),
 }
 
 NOT_YET = {}
